@@ -522,12 +522,12 @@ Proof.
   - destruct (lex_after_sign 1 st mask n rest Hs F) as [L [S1 S2]].
     unfold lex_number. rewrite S1.
     destruct (spell st mask n ++ rest) as [|c t] eqn:E.
-    + rewrite L. simpl. f_equal. lia.
+    + rewrite L. cbn [lex_value]. f_equal; try lia.
     + destruct (N.eq_dec c 45) as [->|Hc]; [contradiction|].
       replace (match c :: t with 45 :: r => ((-1)%Z, skip r) | _ => (1%Z, c :: t) end) with (1%Z, c :: t).
-      * rewrite L. simpl. f_equal. lia.
+      * rewrite L. cbn [lex_value]. f_equal; try lia.
       * destruct c as [|p]; [reflexivity|]. repeat (destruct p as [p|p|]; try reflexivity). contradiction.
   - destruct (lex_after_sign (-1) st mask n rest Hs F) as [L [S1 S2]].
     unfold lex_number. rewrite skip_head by (try discriminate; reflexivity). rewrite S1.
-    rewrite L. simpl. f_equal. lia.
+    rewrite L. cbn [lex_value]. f_equal; try lia.
 Qed.
